@@ -11,6 +11,7 @@ import NgoVerif.DriverNormalize
 import NgoVerif.DriverSumAgg
 import NgoVerif.DriverDependency
 import NgoVerif.DriverUnused
+import NgoVerif.DriverMinMax
 /-!
 # Line-protocol driver: one s-expression request per line on stdin, one s-expression answer per line on stdout.
 
@@ -57,7 +58,7 @@ def runMakeUnique (u : UniqueVars) : List Sexp → List String → Option (List 
   | _, _ => none
 
 /-- handlers contributed by the per-pass driver files; tried in order -/
-def extHandlers : List (Sexp → Option Sexp) := [handleCleanup, handleBinding, handleNormalize, handleSumAgg, handleDependency, handleUnused]
+def extHandlers : List (Sexp → Option Sexp) := [handleCleanup, handleBinding, handleNormalize, handleSumAgg, handleDependency, handleUnused, handleMinMax]
 
 def tryExt (req : Sexp) : List (Sexp → Option Sexp) → Sexp
   | [] => unsupported "unknown op"
